@@ -68,6 +68,7 @@ type gen struct {
 	pures  []string // private pure helpers: p0(a: base.u32) base.u32
 	helps  []string // private impure helpers: h0!(a: base.u32)
 	coros  []string // private coroutines: c0?(src: base.io_reader)
+	coroArg []bool  // whether coroutine i takes the extra "w: base.u32" argument
 	// current function
 	locals   []variable
 	args     []variable
@@ -940,13 +941,22 @@ func (g *gen) ioStmt() {
 		g.line("}")
 	case 8:
 		if len(g.coros) > 0 {
-			c := g.coros[g.draw(0, len(g.coros)-1, "subco")]
+			ci := g.draw(0, len(g.coros)-1, "subco")
+			c := g.coros[ci]
+			callArgs := "src: args.src"
+			if ci < len(g.coroArg) && g.coroArg[ci] {
+				// a local assigned since the last suspension point and used only as this argument
+				// cw is assigned after the last suspension point and used only as this argument
+				g.line("r32 = args.src.read_u16le_as_u32?()")
+				g.line("cw = (r32 ~mod* 3) ~mod+ 1")
+				callArgs += ", w: cw"
+			}
 			if g.o.ChunkOblivious || g.chance(70, "plaincall") {
-				g.line("this.%s?(src: args.src)", c)
+				g.line("this.%s?(%s)", c, callArgs)
 			} else {
 				g.line("while true {")
 				g.depth++
-				g.line("st =? this.%s?(src: args.src)", c)
+				g.line("st =? this.%s?(%s)", c, callArgs)
 				g.line("if st.is_ok() {")
 				g.line("    break")
 				g.line("} else if st.is_error() {")
@@ -1000,6 +1010,7 @@ func (g *gen) startFunc(impure, coro bool, args []variable) {
 	g.declLocals()
 	if coro {
 		g.line("var st : base.status")
+		g.line("var cw : base.u32")
 	} else if impure {
 		g.line("var r : base.io_reader")
 	}
@@ -1059,7 +1070,21 @@ func Gen(t *rapid.T, pkg string, o *Options) Prog {
 		fmt.Fprintf(w, "    a%d : array[%d] %s,\n", i, n, et)
 		g.arrays = append(g.arrays, array{name: fmt.Sprintf("this.a%d", i), n: n, width: width, emax: emax})
 	}
+	nested := 0
+	if g.chance(25, "nested") && !second {
+		nested = []int{2, 4, 8}[g.draw(0, 2, "nestn")]
+		fmt.Fprintf(w, "    g0 : array[4] array[%d] base.u8,\n", nested)
+	}
 	fmt.Fprintf(w, ")\n\n")
+	if nested > 0 {
+		// a pure method that reads a row through a local slice; storing through that
+		// slice is a shape only a checker with a hole in its read-only types accepts
+		fmt.Fprintf(w, "pub func foo.peek_g0() base.u64 {\n    var s : roslice base.u8\n    var i : base.u32\n    var t : base.u64\n    while i < 4 {\n        s = this.g0[i][0 .. %d]\n        t = ((t ~mod* 257) ~mod+ (s[0] as base.u64))\n        i += 1\n    }\n    return t\n}\n\n", nested)
+		if g.chance(30, "nestedwrite") {
+			fmt.Fprintf(w, "pub func foo.poke_g0() base.u64 {\n    var s : slice base.u8\n    s = this.g0[%d][0 .. %d]\n    s[%d] = %d\n    return s[0] as base.u64\n}\n\n", g.draw(0, 3, "pokerow"), nested, g.draw(0, nested-1, "pokecol"), g.draw(1, 255, "pokeval"))
+		}
+		fmt.Fprintf(w, "pub func foo.fill_g0!(v: base.u8) {\n    var i : base.u32\n    while i < 4 {\n        this.g0[i][0] = args.v\n        this.g0[i][%d] = args.v ~mod+ (i as base.u8)\n        i += 1\n    }\n}\n\n", nested-1)
+	}
 	// getters: the observable state
 	for i, f := range g.fields {
 		fmt.Fprintf(w, "pub func foo.get_f%d() %s {\n    return this.f%d\n}\n\n", i, typeName(f.width), i)
@@ -1086,8 +1111,15 @@ func Gen(t *rapid.T, pkg string, o *Options) Prog {
 	}
 	// private coroutines
 	for i := 0; i < g.draw(0, 2, "ncoro"); i++ {
-		fmt.Fprintf(w, "pri func foo.c%d?(src: base.io_reader) {\n", i)
-		g.startFunc(true, true, nil)
+		withArg := g.chance(50, "coroarg")
+		if withArg {
+			fmt.Fprintf(w, "pri func foo.c%d?(src: base.io_reader, w: base.u32) {\n", i)
+			g.startFunc(true, true, []variable{{name: "args.w", width: 32, max: typeMax(32), arg: true}})
+		} else {
+			fmt.Fprintf(w, "pri func foo.c%d?(src: base.io_reader) {\n", i)
+			g.startFunc(true, true, nil)
+		}
+		g.coroArg = append(g.coroArg, withArg)
 		g.hasDst = false
 		saved := g.coros
 		g.coros = nil // no nesting beyond one level from private coroutines
@@ -1103,6 +1135,15 @@ func Gen(t *rapid.T, pkg string, o *Options) Prog {
 			g.line("if %s {", g.cond())
 			g.line("    return \"#bad\"")
 			g.line("}")
+		}
+		if withArg && len(g.fields) > 0 {
+			// the argument is used after the callee's own suspension points
+			for _, f := range g.fields {
+				if f.max.Cmp(typeMax(f.width)) == 0 && f.width >= 32 {
+					g.line("%s ~mod+= %s", f.name, conv("args.w", 32, f.width))
+					break
+				}
+			}
 		}
 		g.coros = saved
 		fmt.Fprintf(w, "}\n\n")
